@@ -29,6 +29,7 @@ type jJob struct {
 type jReq struct {
 	Lines, Query [][2]string
 	Host, Body   string
+	Junk         []string
 }
 type jServed struct {
 	Status int
@@ -41,7 +42,7 @@ func toJob(cs cfgSpec, reqs []reqSpec) jJob {
 		j.Bes = append(j.Bes, jBe{b.h, b.q, b.static, b.gql, b.gqlVar})
 	}
 	for _, r := range reqs {
-		j.Reqs = append(j.Reqs, jReq{r.lines, r.query, r.host, r.body})
+		j.Reqs = append(j.Reqs, jReq{r.lines, r.query, r.host, r.body, r.junk})
 	}
 	return j
 }
@@ -53,7 +54,7 @@ func fromJob(j jJob) (cfgSpec, []reqSpec) {
 	}
 	var reqs []reqSpec
 	for _, r := range j.Reqs {
-		reqs = append(reqs, reqSpec{lines: r.Lines, query: r.Query, host: r.Host, body: r.Body})
+		reqs = append(reqs, reqSpec{lines: r.Lines, query: r.Query, host: r.Host, body: r.Body, junk: r.Junk})
 	}
 	return cs, reqs
 }
